@@ -306,7 +306,7 @@ def inlined(ctx, fn: FuncInfo, depth: int = 3, keep: Tuple[str, ...] = ()) -> Fu
                 arg = defaults.get(p)
             if arg is None or isinstance(arg, ast.Starred):
                 return None
-            if isinstance(arg, ast.Name) and p in bound and p not in rebound and arg.id not in helper_locals and arg.id not in target_names:
+            if isinstance(arg, ast.Name) and p in bound and p not in rebound and (arg.id not in helper_locals or arg.id == p) and arg.id not in target_names:
                 mapping[p] = arg.id  # a plain local handed through: the helper reads the caller's name
                 continue
             mapping[p] = prefix + p
